@@ -716,6 +716,11 @@ class Runner:
                     return "unsat"
             except z3.Z3Exception:
                 continue
+        # last resort: the same incremental solver with the full per-query budget (strings, mixed theories)
+        ex.solver.set("timeout", self.query_timeout_ms)
+        r3 = ex.check()
+        if r3 == "unsat":
+            return "unsat"
         return "unknown"
 
     def _witness_from(self, h, m):
